@@ -74,30 +74,9 @@ func main() {
 	t := &hmodel.Totals{}
 	generic := []string{"panic", "deadlock", "livelock", "leak"}
 	positions := 0
-	for _, h := range fhs {
-		if !h.quick && !c.Thorough() {
-			continue
-		}
-		// learn the length of the fault-free script, then inject the fault at every scheduling point
-		hh := explore.Lookup(h.name)
-		hh.Arg = -1
-		hmodel.RunHarness(c, "C16", t, h.name, 0, generic...)
-		n := int(t.LastMaxSteps)
-		step := 1
-		for at := 0; at <= n; at += step {
-			if c.Expired("fault positions of " + h.name) {
-				break
-			}
-			hh.Arg = at
-			b := h.qb
-			if c.Thorough() {
-				b = h.tb
-			}
-			hmodel.RunHarnessQuiet(c, "C16", t, h.name, b, generic...)
-			positions++
-		}
-		fmt.Printf("fault harness %-36s positions 0..%d done\n", h.name, n)
-	}
+	// cheapest and most diverse first, so that a deadline cuts depth rather than breadth:
+	// phase 1 = timeouts, handler-level close races, and every fault position of every scenario on the
+	// default schedule (delay bound 0); phase 2 = the schedule-exploring runs (bound > 0).
 	for _, name := range ths {
 		b := 0
 		if c.Thorough() {
@@ -105,13 +84,44 @@ func main() {
 		}
 		hmodel.RunHarness(c, "C16", t, name, b, generic...)
 	}
-	// handler-level scenarios with a closer thread
 	for _, s := range hmodel.CloseScripts() {
 		b := s.QB
 		if c.Thorough() {
 			b = s.TB
 		}
 		hmodel.RunHarness(c, "C16", t, s.Name, b, generic...)
+	}
+	lengths := map[string]int{}
+	for phase := 1; phase <= 2; phase++ {
+		for _, h := range fhs {
+			if !h.quick && !c.Thorough() {
+				continue
+			}
+			b := h.qb
+			if c.Thorough() {
+				b = h.tb
+			}
+			hh := explore.Lookup(h.name)
+			if phase == 1 {
+				// learn the length of the fault-free script, then inject the fault at every scheduling point
+				hh.Arg = -1
+				hmodel.RunHarness(c, "C16", t, h.name, 0, generic...)
+				lengths[h.name] = int(t.LastMaxSteps)
+				b = 0
+			} else if b == 0 {
+				continue
+			}
+			n := lengths[h.name]
+			for at := 0; at <= n; at++ {
+				if c.Expired("fault positions of " + h.name) {
+					break
+				}
+				hh.Arg = at
+				hmodel.RunHarnessQuiet(c, "C16", t, h.name, b, generic...)
+				positions++
+			}
+			fmt.Printf("fault harness %-36s positions 0..%d at delay bound %d done\n", h.name, n, b)
+		}
 	}
 	c.Set("fault_positions", positions)
 	c.Set("evaluations", t.Execs)
